@@ -32,6 +32,29 @@ type connWriter interface {
 	Close() error
 }
 
+// c17Expand replaces the bulk event W:<c>:<count>:<len> by <count> writes of one <len>-byte line each.
+func c17Expand(evs []string) []string {
+	var out []string
+	for _, ev := range evs {
+		p := strings.Split(ev, ":")
+		if p[0] != "W" {
+			out = append(out, ev)
+			continue
+		}
+		var n, ln int
+		fmt.Sscanf(p[2], "%d", &n)
+		fmt.Sscanf(p[3], "%d", &ln)
+		for i := 0; i < n; i++ {
+			l := fmt.Sprintf("c%s-%06d ", p[1], i)
+			for len(l) < ln-1 {
+				l += string(rune('a' + (i+len(l))%26))
+			}
+			out = append(out, "w:"+p[1]+":"+hx(l+"\n"))
+		}
+	}
+	return out
+}
+
 func c17Spec(kind string, evs []string) (lines []string, closed bool) {
 	bufs := map[string][]byte{}
 	open := map[string]bool{}
@@ -120,7 +143,7 @@ func groupByConn(lines []string) []string {
 
 func c17Run(r *runCtx, id string, f []string) {
 	kind := f[1]
-	evs := strings.Split(f[2], ";")
+	evs := c17Expand(strings.Split(f[2], ";"))
 	dir, err := os.MkdirTemp("", "verif-c17")
 	if err != nil {
 		r.obs(id, "ENV-ERROR")
@@ -302,6 +325,14 @@ func init() {
 				if kind == "unix" || kind == "tcp" {
 					g.emit("sock", kind, "o:1;o:2;w:1:"+hx("c1-x")+";w:2:"+hx("c2-y\n")+";w:1:"+hx("z\n")+";x:2;x:1;z")
 					g.emit("sock", kind, "o:1;w:1:"+hx("c1-p")+";o:2;w:2:"+hx("c2-q")+";x:1;x:2;z")
+				}
+			}
+			// sustained traffic: more bytes in total than any buffer of the readers holds (128 KiB),
+			// in messages of a size that does not divide it
+			for _, kind := range []string{"unix", "tcp", "fifo", "unixgram"} {
+				g.emit("sock", kind, "o:1;W:1:1500:100;x:1;z")
+				if g.thorough() {
+					g.emit("sock", kind, "o:1;W:1:700:333;w:1:"+hx("c1-tail\n")+";W:1:900:77;x:1;z")
 				}
 			}
 			n := 40
